@@ -163,6 +163,22 @@ PROPS['C17'] = {
     'probes': ['lookups_checked', 'entries_evicted_by_thaw', 'inserts_refused_full', 'glyph_runs_compared', 'faults_fired', 'runs_filling_table', 'thaw_emptied_table'],
 }
 
+PROPS['C08'] = {
+    'level': 'exploration',
+    'passes': [{'variant': 'opt', 'binary': 'sample', 'runs': [16000, 600000], 'deadline_s': [150, 2400]}],
+    'rule': ("one evaluation = one seeded scene: a source of 1..64 x 1..64 random pixels (a8r8g8b8, x8r8g8b8, a8, r5g6b5; 1x1 and 1xN included), a transform (none, integer and fractional "
+             "translation, +-scale with positions on pixel boundaries, 90-degree rotations, general affine, projective with w in about [1/2,4]), a filter (NEAREST, BILINEAR and their aliases, "
+             "CONVOLUTION and SEPARABLE_CONVOLUTION with non-negative kernels up to 5x5 and 0-2 phase bits), a repeat mode, and 1-3 OP_SRC requests into an a8r8g8b8 destination, executed "
+             "under ALL 32 chains and compared pixel by pixel with a reference sampler written from the property statement and rounding.txt: exact for NEAREST and BILINEAR under affine "
+             "transforms, +-1 per channel for the convolutions; under projective transforms NEAREST only, and only pixels whose exact rational position is farther from a pixel boundary "
+             "than the error the statement allows.  Non-trivial = at least 16 pixels judged; distinct = distinct event hashes (all destinations of all chains)"),
+    'real_vs_stub': {'real': IMG_REAL, 'stub_or_simulated': ['PIXMAN_DISABLE environment variable (set before the real _pixman_choose_implementation())']},
+    'assumptions': COMMON_ASSUME + ["the 300-line reference sampler is trusted (it agreed exactly with pixman on 1.6e7 affine pixels in the design probe)",
+                                    "convolution kernels are non-negative with sum <= 1 so that neither clipping nor accumulator sign handling enters the comparison",
+                                    "bilinear and convolution filters are not judged under projective transforms (a one-unit position error may legitimately move a 7-bit weight)"],
+    'probes': ['pixels_judged', 'projective', 'affine', 'bilinear', 'nearest', 'convolution', 'separable-convolution', 'reflect', 'pad', 'normal', 'none'],
+}
+
 MANIFEST_TEXT = {}
 MANIFEST_TEXT['C06'] = {
     'technique': 'deterministic simulation: seeded operation histories with allocation-fault events against the real region code; canonical-form invariants + point-set equality oracle after every step',
@@ -224,4 +240,11 @@ MANIFEST_TEXT['C17'] = {
     'level_text': "seeded search over cache histories at three table sizes (16, 64 and the real 32768 slots); every lookup, insert, thaw and glyph run of every history is checked against the model",
     'level_note': "small-scope tables come from hook H4 (water marks overridable under PIXMAN_VERIF); the real-size pass runs fewer, longer histories",
     'design_ref': 'DESIGN.md section 4, C17',
+}
+
+MANIFEST_TEXT['C08'] = {
+    'technique': 'deterministic simulation over configurations: seeded transformed-source requests executed under all 32 implementation chains (every fetcher that can serve them) and compared with an independent reference sampler',
+    'level_text': "configuration dimension ('whichever internal fetcher') exhaustive per scene; transforms, filters, repeats, sizes and formats sampled",
+    'level_note': "reference written from the statement and rounding.txt; exact for affine NEAREST/BILINEAR, +-1 for convolutions, boundary-guarded NEAREST for projective",
+    'design_ref': 'DESIGN.md section 4, C08',
 }
